@@ -152,7 +152,7 @@ def build_mesh(D, tags, attach, via_constructor=None):
     return m
 
 
-def describe(D, tags, attach, mesh=None, scale=1.0):
+def describe(D, tags, attach, mesh=None, scale=1.0, vn_cached=False):
     """Source of a mesh built by build_mesh; normals are read back from the mesh (the setter may have refused them)"""
     fdata, vdata = {}, {}
     vis = attach["visual"]
@@ -186,7 +186,7 @@ def describe(D, tags, attach, mesh=None, scale=1.0):
         if attach["vnorm"]:
             vdata["vertex_normals"] = tags["VN"]
             crit_vn = tags["VN"]
-        elif attach["warm"] and finite:
+        elif (attach["warm"] and finite) or vn_cached:
             crit_vn = np.array(mesh.vertex_normals, dtype=np.float64)
     elif mesh is None:
         # constructor operation: what is handed over
@@ -207,6 +207,53 @@ def warm(mesh):
     _ = mesh.triangles, mesh.face_normals, mesh.vertex_normals, mesh.edges_unique, mesh.face_adjacency, mesh.area_faces, mesh.bounds
     if mesh.visual.kind in ("face", "vertex"):
         _ = mesh.visual.face_colors, mesh.visual.vertex_colors
+
+
+def derived_fresh(mesh, S, names, attach, tol, sigp, labels):
+    """values read before the operation must afterwards have the row count of the current faces / vertices and equal
+    what a fresh mesh built from the current arrays computes (NaN-aware); the only difference between the two sides
+    is the history. Positions may have moved by the merge tolerance `tol`; normals kept through a merge are those of
+    the unmerged corners (face) or of the unmerged vertex star (vertex: row count only)."""
+    oV, oF = np.array(mesh.vertices, dtype=np.float64), np.array(mesh.faces, dtype=np.int64).reshape((-1, 3))
+    if not len(oF) or not len(oV):
+        return
+    fresh = trimesh.Trimesh(oV.copy(), oF.copy(), process=False, validate=False)
+    L, h = tri_extents(oV[oF])
+    for nm in names:
+        with np.errstate(all="ignore"):
+            got, want = getattr(mesh, nm), getattr(fresh, nm)
+        got, want = np.asarray(got), np.asarray(want)
+        sig = sigp.split("|")[0] + f"|derived_stale|{nm}"
+        opname = sigp.split("|")[1]
+        if nm in ("edges_unique", "face_adjacency"):
+            g = sorted(map(tuple, got.reshape((-1, 2)).tolist()))
+            w = sorted(map(tuple, want.reshape((-1, 2)).tolist()))
+            check(g == w, sig, f"mesh.{nm} read before {opname} has {len(g)} rows afterwards, a fresh mesh {len(w)}; as sets they {'agree' if set(g) == set(w) else 'differ'}")
+            continue
+        check(got.shape == want.shape, sig, f"mesh.{nm} read before {opname} has shape {got.shape} afterwards; the mesh has {len(oF)} faces / {len(oV)} vertices and a fresh mesh gives {want.shape}")
+        if got.dtype.kind in "iub":
+            check(np.array_equal(got, want), sig, lambda: f"mesh.{nm} read before {opname} differs afterwards from a fresh mesh at rows {np.nonzero((got != want).reshape((len(got), -1)).any(axis=1))[0][:5].tolist() if got.ndim else ''}")
+            continue
+        if nm == "vertex_normals" and (attach["vnorm"] or attach["fnorm"] or opname not in ("update_faces", "unique_faces", "nondegenerate_faces")):
+            # vertex normals are kept through vertex masks / merges by design (those of the kept vertex and its former
+            # star): only their row count is judged there
+            continue
+        if nm == "face_normals" and attach["fnorm"]:
+            continue
+        rows = np.ones(len(got), dtype=bool) if got.ndim else None
+        atol = 1e-9 * max(S.scale, 1.0) ** 2 + 8 * tol * max(S.vmax, 1.0)
+        if nm in ("face_normals", "face_angles", "vertex_normals"):
+            if nm != "vertex_normals":
+                rows = np.isfinite(h) & (h >= 1e-3 * S.scale)
+            atol = 1e-9 + 8 * tol / (1e-3 * S.scale)
+        with np.errstate(all="ignore"):
+            if got.ndim:
+                ok = np.isclose(got[rows], want[rows], rtol=1e-7, atol=atol, equal_nan=True)
+                bad = np.nonzero(~ok.reshape((len(ok), -1)).all(axis=1))[0] if len(ok) else []
+            else:
+                bad = [] if np.isclose(got, want, rtol=1e-7, atol=atol, equal_nan=True) else [0]
+        check(len(bad) == 0, sig, lambda: f"mesh.{nm} read before {opname} differs afterwards from a fresh mesh built from the current arrays, first at (kept) row {int(bad[0])}: {np.asarray(got[rows][bad[0]] if got.ndim else got).tolist()} vs {np.asarray(want[rows][bad[0]] if got.ndim else want).tolist()}")
+    labels.append("derived:checked")
 
 
 # =================================================================================== reading the output
@@ -548,6 +595,8 @@ def check_merge(S, res, oV, vo, mp, sigp, ctx_labels):
             vn = None
     if not mp["merge_norm"] and vn is not None and bool(np.isfinite(vn).all()):
         comps.append(("normal", vn, mp["dn"]))
+    elif not mp["merge_norm"] and vn is not None:
+        unknown_norm = True  # cached normals with non-finite rows: what they do to the key is not modelled
     merged = False
     for k, ss in rel.items():
         if len(ss) < 2:
@@ -738,10 +787,18 @@ def b_ops(case, ctx):
         mesh = build_mesh(D, tags, attach)
         if attach["warm"] and bool(np.isfinite(D["V"]).all()) and len(D["F"]):
             warm(mesh)
-        S = describe(D, tags, attach, mesh=mesh, scale=scale)
+        derived = [d for d in attach.get("derived") or [] if name in CARRYING and len(D["F"])]
+        for nm in derived:
+            with np.errstate(all="ignore"):
+                _ = getattr(mesh, nm)
+        S = describe(D, tags, attach, mesh=mesh, scale=scale, vn_cached="vertex_normals" in derived)
         if not S.nf:
             ctx.note(cls=labels)
             return
+        if derived:
+            labels.append("derived:read_before_op")
+            if not bool(np.isfinite(D["V"]).all()):
+                labels.append("derived:read_on_nonfinite_mesh")
         outs = OPS[name](S, mesh, op, rs, labels, sigp)
 
     changed = False
@@ -765,6 +822,8 @@ def b_ops(case, ctx):
             post(res, oV, oF, fo, vo)
         if attach["warm"] and name != "constructor" and isinstance(out, trimesh.Trimesh):
             derived_colors(out, S, sigp)
+        if name != "constructor" and name in CARRYING and isinstance(out, trimesh.Trimesh) and attach.get("derived"):
+            derived_fresh(out, S, attach["derived"], attach, opt.tol, sigp, labels)
         carried_labels(S, fo, vo, labels)
         if res["src"] != list(range(S.nf)) or len(oV) != S.nv or not np.array_equal(oF, S.F):
             changed = True
@@ -1555,6 +1614,8 @@ REQUIRED_CLASSES["C07"] = [
     "vmask:int_repeats",
     "mask:bool_drop_few",
     "dirt:dupv_straddle",
+    "derived:checked",
+    "derived:read_on_nonfinite_mesh",
     "dirt:uv_integer_shift",
     "tag:painted_vertex",
     "tag:painted_face",
